@@ -45,7 +45,7 @@ def run(prop, tier, seed, replay):
     common.proof_coverage(v, st, prop, TB)
     v.coverage.update(dict(
         evaluations=res["evals"], distinct_nontrivial=res["distinct"],
-        rule="Encode side: random messages of all seven kinds (extreme integers, empty/large signatures and deltas, empty/long/non-ASCII strings) through Message::encode, Codec::write_message, bincode::serialize(Signature|Delta), FrameHeader::encode - bytes compared with the extracted model. Decode side: the valid encodings (with trailing bytes), every truncation of small ones, single-field corruptions (block size 0 / non power of two / 2^63, counts and lengths at 0, 2^20, 2^32-1, 2^63, 2^64-1, +-1, enum tags, bool/Option bytes, invalid UTF-8, cut multi-byte characters), random edits, random byte strings, a grid of header fields, frames whose length field disagrees with the payload - through FrameHeader::decode/read_from, Message::decode, Codec::read_message, bincode::deserialize under catch_unwind in both profiles; Ok(value)/error kind and the decoded value compared with the model. CLI: `copia delta`/`copia patch` on crafted files; refusal vs. engine start compared with the Cli model. Oracles on the implementation alone: no panic, no accepted invalid header, re-encode of a decoded value equals the bytes consumed, round trip, frame shape, write refusal exactly above 16 MiB, largest single allocation per call <= 16 MiB (+4 KiB), no signal/timeout. distinct_nontrivial = distinct case lines longer than 30 characters (shipped-profile run).",
+        rule="Encode side: random messages of all seven kinds (extreme integers, empty/large signatures and deltas, empty/long/non-ASCII strings) through Message::encode, Codec::write_message, bincode::serialize(Signature|Delta), FrameHeader::encode - bytes compared with the extracted model. Decode side: the valid encodings (with trailing bytes), every truncation of small ones, single-field corruptions (block size 0 / non power of two / 2^63, counts and lengths at 0, 2^20, 2^32-1, 2^63, 2^64-1, +-1, enum tags, bool/Option bytes, invalid UTF-8, cut multi-byte characters), random edits, random byte strings, a grid of header fields, frames whose length field disagrees with the payload - through FrameHeader::decode/read_from, Message::decode, Codec::read_message, bincode::deserialize under catch_unwind in both profiles; Ok(value)/error kind and the decoded value compared with the model. CLI: `copia delta`/`copia patch` on crafted files (incl. deltas whose Copy runs past the end of the real basis behind a forged basis_size); refusal vs. engine start compared with the Cli model. Oracles on the implementation alone: no panic, no accepted invalid header, re-encode of a decoded value equals the bytes consumed, round trip, frame shape, write refusal exactly above 16 MiB, largest single allocation per call <= 16 MiB (+4 KiB), no signal/timeout. distinct_nontrivial = distinct case lines longer than 30 characters (shipped-profile run).",
         samples=res["samples"] or ["(none)"], distribution=res["stats"], disagreements=res["dis"]))
     v.assumptions = TB
     return v.finish()
